@@ -86,13 +86,17 @@ impl Property for C02 {
             let depth = if k % 10 == 0 { 10 } else { 2 + k % 5 };
             reqs.push(format!("gen.c02 {} {}", rng.next() % (1 << 60), depth));
         }
+        let n_loose = if tier == Tier::Quick { 3000 } else { 150_000 };
+        for k in 0..n_loose {
+            reqs.push(format!("gen.c02loose {} {}", rng.next() % (1 << 60), 1 + k % 5));
+        }
         let answers = ask_driver(&reqs, 16).unwrap_or_default();
         let mut cases = Vec::new();
         for (req, a) in reqs.iter().zip(answers.iter()) {
             let mut parts = a.splitn(2, ' ');
             let src = unx(parts.next().unwrap_or("x"));
             let spec = parts.next().unwrap_or("");
-            let bucket = if req.starts_with("gen.c02sys") { "systematic" } else { "random-ast" };
+            let bucket = if req.starts_with("gen.c02sys") { "systematic" } else if req.starts_with("gen.c02loose") { "random-ast-loose" } else { "random-ast" };
             cases.push(tree_case(&src, Some(spec), bucket));
         }
         let alphabet = ["1", "x", "f", "+", "*", "^", "-", "!", "==", "&&", "=", "+=", "(", ")"];
